@@ -30,10 +30,10 @@ def parsedFields (v : StyleVariant) (code : Nat) : Option Fields :=
     | .error _ => none
   | none => none
 
-/-- A parameter text is safe inside `ESC [ … m`: digits only. -/
+/-- A parameter text is safe inside `ESC [ … m`: ASCII digits only (what `[0-9;:]*` of the repaired `re_ansi` admits). -/
 def paramOk (c : List Char) (n : Nat) : Bool :=
   strIsDigit c && c.all (fun x => x != ';' && x != 'm' && x != '\n' && x != ESC && x != '\r') &&
-    pyIntDigits c == some n && decide (n ≤ 255)
+    pyIntDigits c == some n && decide (n ≤ 255) && c.all (fun x => 48 ≤ x.toNat && x.toNat ≤ 57)
 
 /-- Attribute bit `i`: the encoder's parameter is a number `k`, and the decoder's table reads `k` as
 "attribute `i` on" and nothing else. -/
